@@ -70,6 +70,15 @@ impl DespawnAccessTracker
     }
 }
 
+#[cfg(feature = "verif")]
+impl DespawnAccessTracker
+{
+    pub(crate) fn verif_state(&self) -> (usize, bool, bool)
+    {
+        (self.prepared.len(), self.currently_reacting, self.reactor_handle.is_some())
+    }
+}
+
 impl Default for DespawnAccessTracker
 {
     fn default() -> Self
